@@ -1,13 +1,12 @@
 SPECIFICATION Spec
 CONSTANTS
-  Mode = "minimize"
-  MaxSegs = 3
-  MaxLen = 2
-  Slack = 2
-  N = 5
-  MaxRegs = 2
-  Batch = 50
+  Ls = {6}
+  Family = "pure"
+  OpKinds = {}
+  Chunk = 40
   Stride = 1
   Offset = 0
-
+  MaxGuest = 2
+  PureLen = 1
+  Devs = {"RgPt", "BwRev", "BwOrigin", "WrapSlice"}
 CHECK_DEADLOCK FALSE
